@@ -6,6 +6,7 @@ lemmas are in `Proofs/C03{Bpc,Ceil,Gain}.lean`.
 -/
 import Earverif.Proofs.C03Gain
 import Earverif.Proofs.C02Render
+import Earverif.Proofs.C02RenderTS
 namespace Earverif.Timeline
 open Earverif.Stream Earverif.RenderSpec
 
@@ -277,3 +278,130 @@ example : renderAll exCfg exObjs exDss []
   render_refines_spec exCfg exObjs exDss [] exSession_ok _
 
 end Earverif.Timeline
+
+/-! ### With track processors (`Model/RendererTS.lean`) -/
+namespace Earverif.RendererTS
+open Earverif.Stream Earverif.Timeline Earverif.Renderer Earverif.RenderSpec
+open Earverif.TrackSpec (Spec Proc)
+
+section
+variable {V : Type} [RMod V] [LawfulRMod V]
+
+/-- **`C03_render_formula_ts`** — every output sample of the model of the real pipeline *including the track
+processors*, for any blocking:
+`out[s] = Σ_obj direct_gains(s)·y_obj(s) + Σ_k f[k]·(Σ_obj diffuse_gains·y_obj)(s + (N−1)//2 − k)
+          + Σ_ds gains(s)·y_ds(s) + Σ_hoa M(s)·(y_hoa,1(s), …, y_hoa,m(s))`,
+where `y_item = sAt c spec_item x` is the literal meaning (C20) of the item's track spec — inputs summed, scaled by the
+gains, delayed by the coefficient delays — and the gains are `gainAt` of the item's timeline (C03). -/
+theorem C03_render_formula_ts (c : Cfg V) (objs : List (ObjItemTS V)) (dss : List (DsItemTS V))
+    (hoas : List (HoaItemTS V)) (hok : SessionOKTS c objs dss hoas) (parts : List (List (List Rat))) :
+    ∃ out, renderAllTS c objs dss hoas parts = .ok out ∧ out.length = parts.flatten.length ∧
+      ∀ s, s < parts.flatten.length → out[s]? =
+        some ((((objAtTS c objs parts.flatten s).1 + diffuseAtTS c objs parts.flatten s) +
+          dsAtTS c dss parts.flatten s) + hoaAtTS c hoas parts.flatten s) := by
+  refine ⟨_, render_eq_outTS c objs dss hoas hok parts, by simp [outTS], ?_⟩
+  intro s hs
+  simp only [outTS, List.getElem?_map, List.getElem?_range hs, Option.map_some]
+  rfl
+
+end
+
+/-- **`C03_item_audio_ts`** — inside the input (`t < T`) the audio an item's gains are applied to is sample `t` of
+`meaning(spec)(x)`: the direct, DirectSpeakers and HOA terms of output sample `s` use `meaning(spec_item)(x)(s)`
+(zero latency on top of what the spec itself says); only the decorrelator's look-ahead reads beyond `T`, where the
+input continues as silence (`get_tail`) and delayed inputs keep sounding. -/
+theorem C03_item_audio_ts {V : Type} (c : Cfg V) (spec : Spec Rat) (x : List (List Rat)) (t : Nat) (ht : t < x.length) :
+    sAt c spec x (t : Int) = (TrackSpec.meaning c.sr c.n_in spec x).getD t 0 :=
+  sAt_eq_meaning c spec x t ht
+
+/-- **`C03_coefficient_delay_ts`** — a matrix coefficient delay of `ms` milliseconds delays the item's audio, and
+with it the item's whole contribution to every term of `C03_render_formula_ts`, by exactly
+`d = round(fs·ms/1000)` samples (`TrackSpec.delaySamples`; C20 `delay_rounding`): at every time `τ` up to the end of
+the tail, `y_delayed(τ) = y_undelayed(τ − d)` (silence for `τ < d`). -/
+theorem C03_coefficient_delay_ts {V : Type} (c : Cfg V) (t : Spec Rat) (g : Option Rat) (ms : Rat)
+    (x : List (List Rat)) (τ : Int) (hτ : τ < (x.length + c.overall_delay : Nat)) :
+    sAt c (.matrix t g (some ms)) x τ =
+      sAt c (.matrix t g none) x (τ - ((TrackSpec.delaySamples c.sr ms).toNat : Int)) :=
+  sAt_delay c t g ms x τ hτ
+
+/-- **`C03_direct_spec_ts`** — with `DirectTrackSpec(i)` the item's audio is input track `i`: the formula with track
+specs specialises to `C03_render_formula`. -/
+theorem C03_direct_spec_ts {V : Type} (c : Cfg V) (i : Nat) (hi : i < c.n_in) (x : List (List Rat)) (t : Int) :
+    sAt c (.direct (i : Int)) x t = xAt x i t :=
+  sAt_direct c i hi x t
+
+/-! #### Non-vacuity: a mix of two inputs one of which goes through a matrix coefficient with gain and a 2-sample
+delay (Objects), a gain over a delayed input (DirectSpeakers), two specs one of them silent (HOA) -/
+
+/-- One output channel, sample rate 10, `block_size = 2`, 3-tap decorrelator, two input channels. -/
+def exCfgTS : Cfg Rat := ⟨10, 2, [1/4, 1/2, 1/4], 2⟩
+
+/-- `MixTrackSpec([Direct(0), MatrixCoefficient(Direct(1), gain 1/2, delay 200 ms = 2 samples)])` on the timeline of
+`exObjBlocks`. -/
+def exObjsTS : List (ObjItemTS Rat) :=
+  [⟨.mix [.direct 0, .matrix (.direct 1) (some (1/2)) (some 200)], Earverif.Timeline.exObjBlocks⟩]
+
+/-- `GainTrackSpec(MatrixCoefficient(Direct(1), delay 100 ms = 1 sample), 2)`, one untimed block, gain 1/2. -/
+def exDssTS : List (DsItemTS Rat) :=
+  [⟨.gain (.matrix (.direct 1) none (some 100)) 2, [⟨none, none, none, none, false, none, 1/2⟩]⟩]
+
+/-- `MultiTrackProcessor([Direct(0), Silent])`, one untimed block with decode columns 1 and 5. -/
+def exHoasTS : List (HoaItemTS Rat) :=
+  [⟨[.direct 0, .silent], [⟨none, none, none, none, false, none, [1, 5]⟩]⟩]
+
+theorem exSessionTS_ok : SessionOKTS exCfgTS exObjsTS exDssTS exHoasTS where
+  block_size_pos := by decide
+  objs_ok := by
+    intro it hit
+    simp only [exObjsTS, List.mem_cons, List.not_mem_nil, or_false] at hit
+    subst hit
+    exact Earverif.Timeline.exSession_ok.objs_ok ⟨0, Earverif.Timeline.exObjBlocks⟩ (by simp [Earverif.Timeline.exObjs])
+  dss_ok := by
+    intro it hit
+    simp only [exDssTS, List.mem_cons, List.not_mem_nil, or_false] at hit
+    subst hit
+    exact Earverif.Timeline.exSession_ok.dss_ok ⟨0, [⟨none, none, none, none, false, none, 1/2⟩]⟩
+      (by simp [Earverif.Timeline.exDss])
+  hoas_ok := by
+    intro it hit
+    simp only [exHoasTS, List.mem_cons, List.not_mem_nil, or_false] at hit
+    subst hit
+    refine ⟨Earverif.Timeline.ok_of_toBool _ (by decide +kernel), ?_, ?_⟩
+    · intro m hm
+      simp only [List.mem_cons, List.not_mem_nil, or_false] at hm
+      subst hm
+      refine ⟨?_, ?_, ?_⟩ <;> intro d hd <;> cases hd
+    · intro m ms h
+      cases h
+      decide +kernel
+  specs_ok := by
+    refine ⟨by decide +kernel, by decide +kernel, ?_⟩
+    intro it hit
+    simp only [exHoasTS, List.mem_cons, List.not_mem_nil, or_false] at hit
+    subst hit
+    exact ⟨by simp, by decide +kernel⟩
+
+def exX : List (List Rat) :=
+  [[1, 10], [2, 20], [3, 30], [4, 40], [5, 50], [6, 60], [7, 70], [8, 80], [9, 90], [10, 100], [11, 110],
+   [12, 120], [13, 130], [14, 140]]
+
+/-- The delays round to 2 and 1 samples. -/
+example : TrackSpec.delaySamples 10 200 = 2 ∧ TrackSpec.delaySamples 10 100 = 1 := by decide +kernel
+
+/-- The Objects item's audio: `x0(t) + x1(t − 2)/2`; after the last input frame (`t = 14, 15`) the delayed input is
+still sounding (65, 70), then silence. -/
+example : (List.range 18).map (fun t => sAt exCfgTS (.mix [.direct 0, .matrix (.direct 1) (some (1/2)) (some 200)]) exX t) =
+    [1, 2, 8, 14, 20, 26, 32, 38, 44, 50, 56, 62, 68, 74, 65, 70, 0, 0] := by decide +kernel
+
+/-- The specified output of the example (kernel-evaluated). -/
+example : outTS exCfgTS exObjsTS exDssTS exHoasTS exX =
+    [2, 14, 31, 34, 103/2, 129, 163, 192, 216, 1244/5, 2809/10, 1554/5, 337, 144] := by decide +kernel
+
+/-- The model (processors, gain timelines, delay, decorrelator adapter, aligner, tail) run on the 14 frames split as
+`[3, 0, 1, 10]` returns what the specification says: an instance of `render_refines_spec_ts` / `render_eq_outTS`. -/
+example : renderAllTS exCfgTS exObjsTS exDssTS exHoasTS [exX.take 3, [], (exX.drop 3).take 1, exX.drop 4] =
+    .ok (outTS exCfgTS exObjsTS exDssTS exHoasTS exX) :=
+  render_eq_outTS exCfgTS exObjsTS exDssTS exHoasTS exSessionTS_ok _
+
+end Earverif.RendererTS
+
